@@ -204,6 +204,11 @@ def branch(op, mres, tag):
 
 def predicate(op, il, mres, tag):
     """the property itself, evaluated on what the real handler did"""
+    if op.split()[1] == "cachecancel":
+        if il.split()[1:2] != ["b=1"]:
+            return ("Relic.Props.C14.isolation", "every other request is answered as in isolation (with the key)",
+                    "the cancellation of one request inside the shared key cache reached concurrent requests: " + il)
+        return None
     if il.startswith("panic") or il.startswith("crash") or il.startswith("not-run"):
         return ("Relic.Props.C14.isolation", mres, "implementation crashed (fatal error: concurrent map access, deadlock, panic): " + il[:300])
     if "VIOLATED" in tag or re.search(r"violations=[1-9]", tag):
